@@ -418,9 +418,9 @@ Proof.
   destruct (ids_get (m_version m) (decode_ids rows)) as [x|] eqn:Eg; [|reflexivity].
   exfalso. destruct (ids_get_decode _ _ _ Eg) as [r [w [Hr [Ha Hu]]]].
   destruct (as_i32_some _ _ Ha) as [-> _].
-  assert (Hall : forall x, In x rows -> (0 <= fst x < 2147483648)%Z).
-  { intros x Hx. unfold rows_i32 in Hrows. rewrite forallb_forall in Hrows.
-    assert (Hf : In (fst x) (map fst (db_rows d))) by (rewrite <- Hm; apply in_map; exact Hx).
+  assert (Hall : forall z, In z rows -> (0 <= fst z < 2147483648)%Z).
+  { intros z Hx. unfold rows_i32 in Hrows. rewrite forallb_forall in Hrows.
+    assert (Hf : In (fst z) (map fst (db_rows d))) by (rewrite <- Hm; apply in_map; exact Hx).
     apply in_map_iff in Hf. destruct Hf as [y [Hy Hin]]. specialize (Hrows y Hin).
     apply andb_true_iff in Hrows. destruct Hrows as [A B]. apply Z.leb_le in A. apply Z.ltb_lt in B. rewrite <- Hy. lia. }
   pose proof (max_decode_ge rows r Hall Hr) as Hge. pose proof (Hall _ Hr).
